@@ -513,6 +513,38 @@ macro_rules! c01_row {
                                 ctx.label("view:reversed");
                                 let rev: Vec<$W> = words.iter().rev().cloned().collect();
                                 match AnsCoder::<$W, $S, _>::from_reversed_compressed(rev) {
+                                    Ok(d) if words.len() % 2 == 1 && !pending.is_empty() => {
+                                        // the reversed cursor is a bounded, writable backend: pop the upper half of the pending symbols,
+                                        // push them back (into the words just freed), push them once more on top for as long as the
+                                        // buffer takes them (a refused push must leave the coder as it was), pop those again, and
+                                        // then everything that is pending
+                                        ctx.label("view:reversed_cursor_push_pop");
+                                        let mut d = d;
+                                        let n = pending.len();
+                                        let k = (n + 1) / 2;
+                                        for (depth, e) in pending.iter().rev().enumerate().take(k) {
+                                            let r = with_prec!(e.tab.sel, $plist, |M| d.decode_symbol(M::new(&e.tab)).ok());
+                                            vcheck!(r == Some(e.sym), "C01/view_reversed_cursor_push_pop", "decoded {:?} instead of {} at depth {}", r, e.sym, depth);
+                                        }
+                                        for e in pending.iter().skip(n - k) {
+                                            let r = with_prec!(e.tab.sel, $plist, |M| d.encode_symbol(e.sym, M::new(&e.tab)).is_ok());
+                                            vcheck!(r, "C01/view_reversed_cursor_push_pop", "pushing {} back into the space its pop had freed was refused", e.sym);
+                                        }
+                                        let mut extra = 0;
+                                        for e in pending.iter().skip(n - k) {
+                                            let ok = with_prec!(e.tab.sel, $plist, |M| d.encode_symbol(e.sym, M::new(&e.tab)).is_ok());
+                                            if !ok {
+                                                ctx.label("view:reversed_cursor_full");
+                                                break;
+                                            }
+                                            extra += 1;
+                                        }
+                                        for e in pending[n - k..n - k + extra].iter().rev() {
+                                            let r = with_prec!(e.tab.sel, $plist, |M| d.decode_symbol(M::new(&e.tab)).ok());
+                                            vcheck!(r == Some(e.sym), "C01/view_reversed_cursor_push_pop", "second copy: decoded {:?} instead of {}", r, e.sym);
+                                        }
+                                        drain_check!(d, pending, $plist, "C01/view_reversed_cursor_push_pop");
+                                    }
                                     Ok(d) => drain_check!(d, pending, $plist, "C01/view_reversed"),
                                     Err(_) => vfail!("C01/reimport_rejected", "from_reversed_compressed rejected {}", hexwords(&words)),
                                 }
